@@ -12,7 +12,7 @@ def gen_world(rng, kinds, big=False):
     W = rng.choice([1, 2, 2, 3, 4, 5, 6] + ([7, 8, 12] if big else []))
     top = 72 if big else 24
     N = rng.choice([1, 2, 3, rng.randint(1, top), rng.randint(4, top), rng.randint(10, top)])
-    w = dict(kind=kind, W=W, N=N, seed=rng.choice([0, 1, 5, rng.randint(0, 10 ** 6)]))
+    w = dict(kind=kind, W=W, N=N, seed=rng.choice([0, 1, 5, rng.randint(0, 10 ** 6)]), implicit_rank=rng.random() < 0.3)
     if kind == "dist":
         r = rng.choice([1, 1, 2, 3, 4])
         w.update(num_repeats=r, drop_last=rng.random() < 0.5, shuffle=True if r > 1 else rng.random() < 0.75)
@@ -54,23 +54,75 @@ def make_dataset(w):
     raise ValueError(w["kind"])
 
 
-def make_sampler(w, dataset, rank, W):
+class FakeDist:
+    """an initialised process group as seen from one simulated rank (seam: the `dist` module attribute of
+    kappadata.utils.distributed and torch.utils.data.distributed)"""
+    current = [None]  # (rank, world size) of the rank that is on CPU
+
+    @staticmethod
+    def is_available():
+        return True
+
+    @staticmethod
+    def is_initialized():
+        return FakeDist.current[0] is not None
+
+    @staticmethod
+    def get_rank(group=None):
+        return FakeDist.current[0][0]
+
+    @staticmethod
+    def get_world_size(group=None):
+        return FakeDist.current[0][1]
+
+
+class as_rank:
+    """context: the code inside runs as rank r of W with torch.distributed 'initialised' (or not, if implicit is False)"""
+
+    def __init__(self, r, W, implicit):
+        self.val = (r, W) if implicit else None
+
+    def __enter__(self):
+        import kappadata.utils.distributed as kud
+        import torch.utils.data.distributed as tudd
+        self.saved = (kud.dist, tudd.dist, FakeDist.current[0])
+        if self.val is not None:
+            kud.dist = FakeDist
+            tudd.dist = FakeDist
+        FakeDist.current[0] = self.val
+
+    def __exit__(self, *a):
+        import kappadata.utils.distributed as kud
+        import torch.utils.data.distributed as tudd
+        kud.dist, tudd.dist, FakeDist.current[0] = self.saved
+
+
+def make_sampler(w, dataset, rank, W, implicit=False):
+    if implicit:
+        # rank and world size come from the (simulated) process group, as in an ordinary DDP job
+        rank_kw, dist_kw = {}, {}
+    else:
+        rank_kw, dist_kw = dict(rank=rank, world_size=W), dict(num_replicas=W, rank=rank)
+    return _make_sampler(w, dataset, rank_kw, dist_kw)
+
+
+def _make_sampler(w, dataset, rank_kw, dist_kw):
     import torch
     from kappadata.samplers import ClassBalancedSampler, DistributedSampler, RandomSampler, SemiSampler, WeightedSampler
     k = w["kind"]
     if k == "dist":
-        return DistributedSampler(dataset, num_replicas=W, rank=rank, shuffle=w["shuffle"], seed=w["seed"], drop_last=w["drop_last"],
-                                  num_repeats=w["num_repeats"])
+        return DistributedSampler(dataset, shuffle=w["shuffle"], seed=w["seed"], drop_last=w["drop_last"],
+                                  num_repeats=w["num_repeats"], **dist_kw)
     if k == "random":
         g = torch.Generator().manual_seed(w["seed"]) if w["generator"] else None
         return RandomSampler(dataset, num_repeats=w["num_repeats"], replacement=w["replacement"], generator=g)
     if k == "cb":
-        return ClassBalancedSampler(dataset, shuffle=w["shuffle"], samples_per_class=w["spc"], seed=w["seed"], rank=rank, world_size=W)
+        return ClassBalancedSampler(dataset, shuffle=w["shuffle"], samples_per_class=w["spc"], seed=w["seed"], **rank_kw)
     if k == "weighted":
-        return WeightedSampler(dataset, torch.tensor(w["weights"]), size=w["size"], seed=w["seed"], rank=rank, world_size=W)
+        return WeightedSampler(dataset, torch.tensor(w["weights"]), size=w["size"], seed=w["seed"], **rank_kw)
     if k == "semi":
-        return SemiSampler(dataset, num_labeled=w["num_labeled"], num_unlabeled=w["num_unlabeled"], rank=rank, world_size=W,
-                           seed=w["seed"], length_mode=w["length_mode"])
+        return SemiSampler(dataset, num_labeled=w["num_labeled"], num_unlabeled=w["num_unlabeled"],
+                           seed=w["seed"], length_mode=w["length_mode"], **rank_kw)
     raise ValueError(k)
 
 
@@ -105,9 +157,13 @@ def run_cluster(plan, out):
     ds = [pickle_copy(base_ds) for _ in range(W)]
     samplers = [None] * W
 
+    implicit = bool(w.get("implicit_rank"))
+    if implicit:
+        out.count("fault:rank_from_simulated_process_group")
+
     def construct(r):
-        with procs[r].on_cpu():
-            samplers[r] = make_sampler(w, ds[r], r, W)
+        with procs[r].on_cpu(), as_rank(r, W, implicit):
+            samplers[r] = make_sampler(w, ds[r], r, W, implicit)
 
     try:
         for r in range(W):
@@ -122,7 +178,7 @@ def run_cluster(plan, out):
         ch.rng.shuffle(order)
         its = [None] * W
         for r in order:
-            with procs[r].on_cpu():
+            with procs[r].on_cpu(), as_rank(r, W, implicit):
                 if hasattr(samplers[r], "set_epoch"):
                     samplers[r].set_epoch(e)
                 its[r] = iter(samplers[r])
@@ -145,13 +201,13 @@ def run_cluster(plan, out):
                     prefix = streams[r]
                     procs[r].clobber("advance", 0)
                     construct(r)
-                    with procs[r].on_cpu():
+                    with procs[r].on_cpu(), as_rank(r, W, implicit):
                         if hasattr(samplers[r], "set_epoch"):
                             samplers[r].set_epoch(e)
                         its[r] = iter(samplers[r])
                     streams[r] = []
                     res["prefix_ok"].append((pos, r, prefix))
-            with procs[r].on_cpu():
+            with procs[r].on_cpu(), as_rank(r, W, implicit):
                 try:
                     streams[r].append(int(next(its[r])))
                 except StopIteration:
@@ -162,14 +218,14 @@ def run_cluster(plan, out):
             if f["kind"] == "reiter":
                 r = f["rank"]
                 out.count("fault:reiteration_of_finished_epoch")
-                with procs[r].on_cpu():
+                with procs[r].on_cpu(), as_rank(r, W, implicit):
                     again = [int(i) for i in samplers[r]]
                 res["reiter_ok"].append((pos, r, again))
         with procs[0].on_cpu():
             pass
         lens = []
         for r in range(W):
-            with procs[r].on_cpu():
+            with procs[r].on_cpu(), as_rank(r, W, implicit):
                 lens.append(len(samplers[r]))
         with refp.on_cpu():
             if hasattr(ref, "set_epoch"):
